@@ -1,30 +1,59 @@
 """C19 - callbacks see every document once, in order, and errors follow policy.
 
-Carriers: bluesky/utils: CallbackRegistry.process; bluesky/run_engine.py: Dispatcher.process, RunEngine.emit, emit_sync,
-ignore_callback_exceptions property.
-Clauses: each callback subscribed to a document kind is invoked exactly once per document of that kind with that
-document, in subscription order; with callback exceptions ignored a raising callback stops neither the others nor the
-caller (the exceptions are returned / warned about); otherwise the first raising callback's exception propagates out of
-emit (and from there, by C02, ends the plan as failed) and later callbacks are not invoked for that document.
-emit / emit_sync forward each document exactly once to the dispatcher (so the emission order is the delivery order).
+Carriers: bluesky/utils: CallbackRegistry.process (+ connect / disconnect / _remove_proxy, which callbacks may run re-entrantly);
+bluesky/run_engine.py: Dispatcher.process / subscribe / unsubscribe, RunEngine.emit, emit_sync, ignore_callback_exceptions,
+and - for the sentence about the plan and the run - RunEngine.__call__ / _run / _open_run / _close_run / _create / _read / _save
+with bluesky/bundlers.py: RunBundler.open_run / save / close_run.
+
+Clauses, from the statement (replay/c19_clause.py holds them as plain functions, shared with the native replay adapters):
+  D  each callback subscribed to a document kind is invoked exactly once per document of that kind, with that document, in
+     subscription order, documents in emission order - also when a callback, while it is being called, unsubscribes itself,
+     unsubscribes another callback, subscribes a further one, or turns out to be a dead reference: the callbacks whose
+     subscription was not touched are served as if nothing had happened, nothing of the registry's own reaches the caller,
+     and the next document goes to exactly the subscriptions that are live then
+  P  callback exceptions ignored: a raising callback stops neither the others nor the caller / the plan; not ignored: the
+     delivery of that document ends at the first raising callback, its exception propagates out of emit and RE(plan) raises it
+  R  (not ignored) every run that is open when the callback raises is closed as failed: one stop document, exit_status 'fail',
+     delivered like any other document; runs closed earlier keep their status.  This includes the case that the callback
+     raises on the start document (some callbacks have seen the start by then) and is *not* met when it raises on a stop
+     document (known finding C19-stop-document-callback-error, see check_kf below).
+Levels: T1 contracts of process / emit / the policy flag (callbacks abstract), and an end-to-end level: the real RunEngine,
+RunBundler, Dispatcher and CallbackRegistry executed together on concrete plan shapes with callbacks raising / (un)subscribing
+at an arbitrary document (quantifier of the property: 'plans with several callbacks, some raising at arbitrary documents,
+both policies').
 """
+from replay import c19_clause as CL
+
 from .lib import *
 from .re_lib import *
 from .C18 import install, callback, new_dispatcher, delivered, D, MU
+from .C16 import cfg_device
+from .run_lib import Engine, TRUSTED_T2
+from . import C01 as _c01
 
 PROP = "C19"
+BOUND = "number of callbacks subscribed to the document kind <= 3"
+RUN_BOUND = ("three plan shapes (one run with two events; one run with interruption recording; two interleaved runs, one of them left "
+             "for the engine to close), three callbacks, the raising / (un)subscribing one in the middle; it acts at an arbitrary document")
 TRUSTED = ["see C18 (WeakKeyDictionary model, DocumentNames enumeration, plain-function callbacks)",
            "the number of subscribed callbacks is enumerated (0..3): the delivery loop is not cut by an invariant (labelled bounded)",
-           "warn() is effect-free (A-LOG)"]
-NOT_DECIDED = ("that a callback error raised while the *stop* document is being delivered still closes the run as failed: the stop "
-               "document has been composed before the dispatcher is called (DESIGN C19 triage note); callbacks scheduled on other threads")
-BOUND = "number of callbacks subscribed to the document kind <= 3"
+           "warn() is effect-free (A-LOG)",
+           "a callback whose owner was garbage collected is represented by a callback raising ReferenceError (what _BoundMethodProxy.__call__ "
+           "does then); the weak-reference destroy callbacks themselves are not modelled",
+           "end-to-end tasks: " + RUN_BOUND] + TRUSTED_T2[:2] + TRUSTED_T2[3:4] + TRUSTED_T2[6:] + EM_ASSUMPTIONS
+NOT_DECIDED = ("callbacks scheduled on other threads; weak-reference destroy callbacks firing in the middle of a delivery; plans that catch the "
+               "callback's exception and carry on (the statement speaks of the exception ending the plan); plan shapes beyond the enumerated ones; "
+               "inside the listed case of the known finding (exceptions not ignored, the first callback error happens on a stop document) only the "
+               "delivery clause, the closing of the *other* runs and the engine's return to idle are proved")
+KF = "C19-stop-document-callback-error"
+CR = f"{MU}:CallbackRegistry"
 
 
+# ------------------------------------------------------------------------------------------------ T1: CallbackRegistry.process
 def _mk(n):
     @task(f"process[{n} callbacks]", PROP, bounded=BOUND,
-          functions=[f"{MU}:CallbackRegistry.process", f"{D}.process"],
-          expect=[f"{MU}:CallbackRegistry.process#ensures[every callback once, in subscription order; error policy] (n={n})"])
+          functions=[f"{CR}.process", f"{D}.process"],
+          expect=[f"{CR}.process#ensures[every callback once, in subscription order; error policy] (n={n})"])
     def t(I):
         w = I.w
         names = install(I)
@@ -32,31 +61,122 @@ def _mk(n):
         d = new_dispatcher(I)
         ignore = w.choose([False, True], "ignore_exceptions")
         I.setattr(d, "ignore_exceptions", ignore)
-        raising = w.choose([None] + list(range(n)), "raising callback") if n else None
-        boom = Obj(BUILTIN_CLASSES["ValueError"], {"args": ("boom",), "__cause__": None}, label="boom")
+        # any subset of the callbacks raises, each its own exception ('some raising')
+        raising = [i for i in range(n) if w.choose([False, True], f"callback {i} raises")]
+        booms = [Obj(BUILTIN_CLASSES["ValueError"], {"args": (f"boom{i}",), "__cause__": None}, label=f"boom{i}") for i in range(n)]
         for i in range(n):
             def cb(I_, a, k, _i=i):
                 log.append((_i, a))
-                if _i == raising:
-                    raise PyRaise(boom)
+                if _i in raising:
+                    raise PyRaise(booms[_i])
             cb._canon_label = f"cb{i}"
             call_method(I, d, "subscribe", native(cb), "event")
         doc = Opaque("doc", {"token": "doc"})
         r = catch(I, I.getattr(d, "process"), names["event"], doc)
         called = [i for i, a in log]
         args_ok = all(a[0] == "event" and a[1] is doc for i, a in log)
-        if raising is None or ignore:
+        if not raising or ignore:
             ok = r[0] == "ok" and called == list(range(n)) and args_ok
         else:
-            ok = r[0] == "raise" and r[1] is boom and called == list(range(raising + 1)) and args_ok
-        w.check(f"{MU}:CallbackRegistry.process#ensures[every callback once, in subscription order; error policy] (n={n})", ok,
-                {"replay": "dispatcher.policy"})
+            ok = r[0] == "raise" and r[1] is booms[raising[0]] and called == list(range(raising[0] + 1)) and args_ok
+        w.check(f"{CR}.process#ensures[every callback once, in subscription order; error policy] (n={n})", ok,
+                {"replay": "dispatcher.policy", "n": n, "raising": raising, "ignore": ignore})
 
 
 for _n in (0, 1, 2, 3):
     _mk(_n)
 
 
+# ------------------------------------------------------------------------------------------------ T1: re-entrant (un)subscription
+RESUB = (f"{CR}.process#ensures[(un)subscribing from inside a callback: a callback that unsubscribes itself / another one, subscribes a further one "
+         "or is a dead reference disturbs nobody: the others get the document once, in order; the next document goes to exactly the live subscriptions]")
+ACTIONS = CL.ACTIONS
+
+
+def _mk_resub(n):
+    @task(f"process.resubscription[{n} callbacks]", PROP, bounded=BOUND,
+          functions=[f"{CR}.process", f"{CR}.connect", f"{CR}.disconnect", f"{CR}._remove_proxy", f"{D}.process", f"{D}.subscribe", f"{D}.unsubscribe"],
+          expect=[RESUB.replace("#ensures[", f"#ensures[n={n}: ")], covers=[f"{a} (n={n})" for a in ACTIONS if n > 1 or a != ACTIONS[1]])
+    def t(I):
+        w = I.w
+        names = install(I)
+        d = new_dispatcher(I)
+        ignore = w.choose([False, True], "ignore_exceptions")
+        I.setattr(d, "ignore_exceptions", ignore)
+        actor = w.choose(list(range(n)), "acting callback")
+        action = w.choose([a for a in ACTIONS if n > 1 or a != ACTIONS[1]], "what it does while it is being called")
+        target = w.choose([i for i in range(n) if i != actor], "callback it unsubscribes") if action == ACTIONS[1] else None
+        new_kind = w.choose(["event", "all"], "kind the further callback subscribes to") if action in (ACTIONS[2], ACTIONS[4]) else None
+        raising = w.choose([None] + [i for i in range(n) if i not in (actor, target)], "raising callback")
+        sc = {"n": n, "ignore": ignore, "actor": actor, "action": ACTIONS.index(action), "target": target, "new_kind": new_kind, "raising": raising}
+        boom = Obj(BUILTIN_CLASSES["ValueError"], {"args": ("boom",), "__cause__": None}, label="boom")
+        docs = [Opaque("doc0", {"token": "doc"}), Opaque("doc1", {"token": "doc"})]
+        calls = ([], [])
+        st = {"acted": None, "doc": 0, "error": None}
+        tokens = {}
+
+        def idx(doc):
+            return [i for i, x in enumerate(docs) if x is doc][0] if any(x is doc for x in docs) else -1
+
+        def newcb(I_, a, k):
+            calls[st["doc"]].append(("new", a[0], idx(a[1])))
+        newcb._canon_label = "new"
+        for i in range(n):
+            def cb(I_, a, k, _i=i):
+                calls[st["doc"]].append((f"cb{_i}", a[0], idx(a[1])))
+                if _i == actor:
+                    if st["acted"] is None:
+                        st["acted"] = st["doc"]
+                        try:
+                            if action in (ACTIONS[0], ACTIONS[4]):
+                                call_method(I_, d, "unsubscribe", tokens[_i])
+                            if action == ACTIONS[1]:
+                                call_method(I_, d, "unsubscribe", tokens[target])
+                            if action in (ACTIONS[2], ACTIONS[4]):
+                                tokens["new"] = call_method(I_, d, "subscribe", native(newcb), new_kind)
+                        except PyRaise as pr:
+                            st["error"] = repr(pr.exc)
+                    if action == ACTIONS[3]:
+                        raise PyRaise(I_.mkexc("ReferenceError"))
+                if _i == raising and st["doc"] == 0:
+                    raise PyRaise(boom)
+            cb._canon_label = f"cb{i}"
+            tokens[i] = call_method(I, d, "subscribe", native(cb), "event")
+        outs = []
+        for t_ in (0, 1):
+            st["doc"] = t_
+            r = catch(I, I.getattr(d, "process"), names["event"], docs[t_])
+            outs.append(("ok",) if r[0] == "ok" else ("raise", r[1] is boom, repr(r[1])))
+        w.cover(f"{action} (n={n})")
+        problems = CL.resubscription_problems(sc, st["acted"], st["error"], calls, outs)
+        w.check(RESUB.replace("#ensures[", f"#ensures[n={n}: "), not problems, {"replay": "dispatcher.resubscription", "scenario": sc, "problems": problems[:4]})
+
+
+for _n in (1, 2, 3):
+    _mk_resub(_n)
+
+
+@task("process.twin", PROP, twin="twin:exceptions not ignored: the callbacks after the raising one still receive the document",
+      functions=[f"{CR}.process"])
+def twin(I):
+    w = I.w
+    names = install(I)
+    log = []
+    d = new_dispatcher(I)
+    I.setattr(d, "ignore_exceptions", False)
+    boom = Obj(BUILTIN_CLASSES["ValueError"], {"args": ("boom",), "__cause__": None}, label="boom")
+
+    def bad(I_, a, k):
+        log.append("bad")
+        raise PyRaise(boom)
+    bad._canon_label = "bad"
+    call_method(I, d, "subscribe", native(bad), "event")
+    call_method(I, d, "subscribe", callback(log, "later"), "event")
+    catch(I, I.getattr(d, "process"), names["event"], Opaque("doc", {"token": "doc"}))
+    w.check("twin:exceptions not ignored: the callbacks after the raising one still receive the document", len(log) == 2)
+
+
+# ------------------------------------------------------------------------------------------------ T1: emit, the policy flag
 @task("emit", PROP, functions=[f"{RE}.emit", f"{RE}.emit_sync", f"{D}.process"],
       expect=[f"{RE}.emit#ensures[each document handed to the dispatcher exactly once, errors propagate to the caller]"])
 def emit(I):
@@ -71,7 +191,8 @@ def emit(I):
         if fails:
             raise PyRaise(boom)
     disp = Opaque("dispatcher", {"methods": {"process": process}})
-    re_ = make_re(I, env, dispatcher=disp)
+    re_ = make_re(I, env, dispatcher=disp, _loop_for_kwargs={})
+    w.stubs["asyncio.sleep"] = lambda I_, a, k: Ready(None)     # yielding to the loop inside emit would be no error (scheduling: end-to-end tasks)
     del re_.attrs["emit"], re_.attrs["emit_sync"]        # the real methods, not the harness recorders
     doc = Opaque("doc", {"token": "doc"})
     which = w.choose(["emit", "emit_sync"], "entry point")
@@ -80,7 +201,7 @@ def emit(I):
     else:
         r = catch(I, I.getattr(re_, "emit_sync"), "event", doc)
     w.check(f"{RE}.emit#ensures[each document handed to the dispatcher exactly once, errors propagate to the caller]",
-            calls == [("event", doc)] and (r[0] == "raise" and r[1] is boom if fails else r[0] == "ok"), {"replay": "dispatcher.policy"})
+            calls == [("event", doc)] and (r[0] == "raise" and r[1] is boom if fails else r[0] == "ok"), {"replay": "dispatcher.emit"})
 
 
 @task("ignore_callback_exceptions", PROP, functions=[f"{RE}.ignore_callback_exceptions", f"{D}.ignore_exceptions"],
@@ -95,3 +216,197 @@ def policy_flag(I):
     I.setattr(re_, "ignore_callback_exceptions", v)
     w.check(f"{RE}.ignore_callback_exceptions#ensures[the policy flag reaches the callback registry]",
             d.cb_registry.ignore_exceptions is v and I.getattr(re_, "ignore_callback_exceptions") is v)
+
+
+# ------------------------------------------------------------------------------------------------ T1: a failed start delivery
+# 'the run is closed as failed' needs the engine to know about a run as soon as one callback may have seen its start: the bundler
+# contract proved under C01 (run_is_open is set before the start document goes out), re-used here because C19's clause R rests on it
+task("bundler.open_run.emit_fails", PROP, functions=[f"{_c01.Q}.open_run"],
+     expect=[f"{_c01.Q}.open_run#ensures[a run whose start document went out is reported open - also when delivering it (or the interruptions "
+             "descriptor) fails - so the engine will close it]"],
+     covers=["start delivery fails", "descriptor delivery fails"])(_c01.open_emit_fails)
+
+
+# ------------------------------------------------------------------------------------------------ end to end: RE(plan) with callbacks
+RUN_D = (f"{RE}.__call__#ensures[every callback receives every document of its kinds once, in emission order, callbacks in subscription order - "
+         "whatever the callbacks raise, subscribe or unsubscribe meanwhile]")
+RUN_P = (f"{RE}.__call__#ensures[callback exceptions ignored: the plan runs to its end; not ignored: RE(plan) raises the callback's exception; "
+         "the engine is idle afterwards]")
+RUN_R = f"{RE}.__call__#ensures[exceptions not ignored: every run open when the callback raises is closed as failed, earlier runs keep their status]"
+RUN_K = f"{RE}.__call__#ensures[exceptions not ignored: also a callback raising on a stop document ends the call with its exception and that run is closed as failed]"
+
+
+class Script(AbsGen):
+    """a concrete plan: yields the given messages one after the other and handles nothing thrown into it"""
+
+    def __init__(self, eng, msgs):
+        self.eng, self.w, self.name = eng, eng.w, "plan"
+        self.canon_name = "plan"
+        self.frame = None
+        self.msgs = msgs
+        self.k = 0
+        self.started = self.done = False
+        self.last_msg = None
+
+    def resume(self, tok):
+        I = self.eng.I
+        if tok[0] == "close":
+            self.done = True
+            return ("return", None)
+        if self.done:
+            if tok[0] == "throw":
+                raise PyRaise(tok[1])
+            raise PyRaise(I.mkexc("StopIteration"))
+        if tok[0] == "throw":
+            self.done = True
+            raise PyRaise(tok[1])
+        self.started = True
+        if self.k >= len(self.msgs):
+            self.done = True
+            return ("return", None)
+        self.last_msg = self.msgs[self.k]
+        self.k += 1
+        return ("yield", self.last_msg)
+
+    def canon(self, cn):
+        return ("script", self.k, self.done)
+
+
+def _event(det, run):
+    return [MsgVal("create", None, (), {"name": "primary"}, run), MsgVal("read", det, (), {}, run), MsgVal("save", None, (), {}, run)]
+
+
+def shape_msgs(shape, det):
+    """the plan of a shape (kept in step with replay/dispatcher.py: shape_plan) and the documents it produces when nothing fails"""
+    M = MsgVal
+    if shape == "one run":
+        return ([M("open_run", None, (), {}, None)] + _event(det, None) + _event(det, None) + [M("close_run", None, (), {}, None)],
+                [("start", 0), ("descriptor", 0), ("event", 0), ("event", 0), ("stop", 0)])
+    if shape == "interruptions recorded":
+        return ([M("open_run", None, (), {}, None)] + _event(det, None) + [M("close_run", None, (), {}, None)],
+                [("start", 0), ("descriptor", 0), ("descriptor", 0), ("event", 0), ("stop", 0)])
+    if shape == "two runs":
+        return ([M("open_run", None, (), {}, "a"), M("open_run", None, (), {}, "b")] + _event(det, "b") + [M("close_run", None, (), {}, "b")] + _event(det, "a"),
+                [("start", 0), ("start", 1), ("descriptor", 1), ("event", 1), ("stop", 1), ("descriptor", 0), ("event", 0), ("stop", 0)])
+    raise EngineError(shape)
+
+
+SHAPES = ["one run", "interruptions recorded", "two runs"]
+RUN_FUNCTIONS = [f"{RE}.{n}" for n in ("__init__", "__call__", "_run", "_clear_call_cache", "_create_result", "_open_run", "_close_run", "_create", "_read",
+                                       "_save", "subscribe", "unsubscribe", "emit", "emit_sync", "ignore_callback_exceptions", "_stop_movable_objects")] + \
+    [f"{D}.process", f"{D}.subscribe", f"{D}.unsubscribe", f"{CR}.process", f"{CR}.connect", f"{CR}.disconnect"] + \
+    [f"{_c01.Q}.{n}" for n in ("open_run", "close_run", "create", "read", "save", "_prepare_stream", "reset_checkpoint_state", "clear_monitors", "backstop_collect")]
+
+
+def _mk_run(shape):
+    @task(f"run[{shape}]", PROP, bounded=RUN_BOUND, functions=RUN_FUNCTIONS, expect=[RUN_D, RUN_P, RUN_R, RUN_K],
+          covers=[f"{shape}: {c}" for c in ("exceptions ignored, a callback raises", "not ignored, raises on a start document",
+                                            "not ignored, raises on a stop document", "one-shot callback", "callback subscribes another",
+                                            "callback unsubscribes a later one")], timeout_s=900)
+    def t(I):
+        w = I.w
+        install(I)
+        eng = Engine(I)
+        env = Env(I)
+        # the real bundler class (the T2 harness installs an abstract one) on the event_model contract of contracts/bundler_lib.py
+        w.stubs[(MR, "RunBundler")] = I.P.class_info(MB, "RunBundler")
+        w.stubs[(MB, "DocumentNames")] = w.stubs[(MR, "DocumentNames")]
+        w.stubs[(MB, "maybe_collect_asset_docs")] = native(lambda I_, a, k: [])
+        w.stubs[(MB, "maybe_update_hints")] = native(lambda I_, a, k: None)
+        w.stubs[(MB, "check_supports")] = native(lambda I_, a, k: a[0])
+        w.stubs["asyncio.gather"] = lambda I_, a, k: Ready([run_coro(I_, c) if isinstance(c, GenObj) else c for c in a])
+        re_ = eng.re
+        det = cfg_device(I, w, None, "det", ["x"], {"gain": 1, "ts": 0})
+        msgs, full = shape_msgs(shape, det)
+        if shape == "interruptions recorded":
+            I.setattr(re_, "record_interruptions", True)
+        ignore = w.choose([False, True], "ignore_callback_exceptions")
+        I.setattr(re_, "ignore_callback_exceptions", ignore)
+        role = w.choose(["raises", "raises from then on", "raises and so does the last one", "one-shot", "subscribes another", "replaces itself by another", "unsubscribes the last one", "records"], "what the middle callback does")
+        at = w.choose(list(range(len(full))), "at document #") if role != "records" else None
+        last_kind = w.choose(["all", "stop"], "kind the last callback subscribed to")
+        sc = {"shape": shape, "ignore": ignore, "role": role, "at": at, "last_kind": last_kind}
+        # ghost: the documents handed to the dispatcher (wrapped around the real Dispatcher.process)
+        E, En, calls, raises = [], [], [], {}
+        disp = I.getattr(re_, "dispatcher")
+        real_process = I.getattr(disp, "process")
+
+        def ledger(I_, a, k):
+            E.append(a[1])
+            En.append(I_.getattr(a[0], "name") if isinstance(a[0], Opaque) else a[0])
+            return I_.call_value(real_process, *a, **k)
+        ledger._canon_label = "dispatcher.process"
+        disp.attrs["process"] = native(ledger)
+        boom = Obj(BUILTIN_CLASSES["ValueError"], {"args": ("boom",), "__cause__": None}, label="boom")
+        tokens, st = {}, {"acted": None, "error": None}
+
+        def idx(doc):
+            hits = [i for i, x in enumerate(E) if x is doc]
+            return hits[-1] if hits else -1
+
+        def recorder(label):
+            def cb(I_, a, k):
+                t_ = idx(a[1])
+                calls.append((label, a[0], t_))
+                if label == "c" and role == "raises and so does the last one" and t_ == at:
+                    raise PyRaise(Obj(BUILTIN_CLASSES["ValueError"], {"args": ("boom of the last callback",), "__cause__": None}, label="boom_c"))
+            cb._canon_label = label
+            return native(cb)
+
+        def middle(I_, a, k):
+            t_ = idx(a[1])
+            calls.append(("x", a[0], t_))
+            if role in ("one-shot", "subscribes another", "replaces itself by another", "unsubscribes the last one") and t_ == at and st["acted"] is None:
+                st["acted"] = t_
+                try:
+                    if role in ("one-shot", "replaces itself by another"):
+                        call_method(I_, re_, "unsubscribe", tokens["x"])
+                    if role in ("subscribes another", "replaces itself by another"):
+                        tokens["new"] = call_method(I_, re_, "subscribe", recorder("new"))
+                    if role == "unsubscribes the last one":
+                        call_method(I_, re_, "unsubscribe", tokens["c"])
+                except PyRaise as pr:
+                    st["error"] = repr(pr.exc)
+            if (role in ("raises", "raises and so does the last one") and t_ == at and not raises) or (role == "raises from then on" and t_ >= at):
+                raises[t_] = "x"
+                raise PyRaise(boom)
+        middle._canon_label = "x"
+        tokens["a"] = call_method(I, re_, "subscribe", recorder("a"))
+        tokens["x"] = call_method(I, re_, "subscribe", native(middle))
+        tokens["c"] = call_method(I, re_, "subscribe", recorder("c"), last_kind)
+        r = eng.call("__call__", Script(eng, msgs))
+        j = st["acted"]
+        subs = [("a", "all", -1, None, None), ("x", "all", -1, j if role in ("one-shot", "replaces itself by another") else None, None),
+                ("c", last_kind, -1, j if role == "unsubscribes the last one" else None, j if role == "unsubscribes the last one" else None)]
+        if role in ("subscribes another", "replaces itself by another") and j is not None:
+            subs.append(("new", "all", j, None, j))
+        docs = [{"name": nm, "uid": x.get("uid"), "run_start": x.get("run_start"), "exit_status": x.get("exit_status")} if isinstance(x, dict) else {"name": nm}
+                for nm, x in zip(En, E)]
+        outcome = ("ok",) if r[0] == "ok" else ("raise", r[1] is boom, repr(r[1]))
+        delivery, out, closing, closing_at_stop = CL.run_problems(docs, calls, subs, raises, ignore, outcome, full)
+        if eng.state != "idle":
+            out.append(f"the engine is left in state {eng.state!r}")
+        if st["error"]:
+            delivery.append(f"(un)subscribing from inside the callback raised {st['error']}")
+        if role in ("one-shot", "subscribes another", "replaces itself by another", "unsubscribes the last one") and j is None:
+            delivery.append(f"the middle callback never saw document #{at}")
+        first = None if ignore or not raises else min(raises)
+        if ignore and raises:
+            w.cover(f"{shape}: exceptions ignored, a callback raises")
+        if first is not None and first < len(docs) and docs[first]["name"] == "start":
+            w.cover(f"{shape}: not ignored, raises on a start document")
+        at_stop = first is not None and first < len(docs) and docs[first]["name"] == "stop"      # the listed case of the known finding
+        if at_stop:
+            w.cover(f"{shape}: not ignored, raises on a stop document")
+        for rl, cv in (("one-shot", "one-shot callback"), ("subscribes another", "callback subscribes another"), ("unsubscribes the last one", "callback unsubscribes a later one")):
+            if role == rl:
+                w.cover(f"{shape}: {cv}")
+        rp = {"replay": "dispatcher.run_policy", "scenario": sc}
+        w.check(RUN_D, not delivery, dict(rp, clause="delivery", problems=delivery[:4]))
+        w.check(RUN_P, not out, dict(rp, clause="outcome", problems=out[:4]))
+        w.check(RUN_R, not closing, dict(rp, clause="closing", problems=closing[:4]))
+        w.check_kf(RUN_K, not closing_at_stop, KF, bool(at_stop), dict(rp, clause="at_stop", problems=closing_at_stop[:4]))
+
+
+for _s in SHAPES:
+    _mk_run(_s)
